@@ -126,23 +126,39 @@ Theorem C16_offsetof_zero_size : forall i, ssize_ok i = true ->
 Proof. exact offsetof_zero_size. Qed.
 Print Assumptions C16_offsetof_zero_size.
 
-(* ffi.addressof(x, i) == x + i *)
+(* ffi.addressof(x, i) == x + i: whenever i*sizeof(T) fits a Py_ssize_t both operations succeed and
+   return the same pointer (both directions); when it does not, addressof raises OverflowError while
+   x + i wraps modulo 2^64 *)
+Theorem C16_addressof_eq_add : forall cd i, 0 < c_isz cd < 2 ^ 63 -> c_voidp cd = false ->
+  ssize_ok i = true -> - 2 ^ 63 <= i * c_isz cd < 2 ^ 63 ->
+  addressof_index cd i = add_or_sub cd i 1 /\ exists q, add_or_sub cd i 1 = Ok q.
+Proof. exact addressof_eq_add. Qed.
+Print Assumptions C16_addressof_eq_add.
+
 Theorem C16_addressof_is_add : forall cd i q, 0 < c_isz cd < 2 ^ 63 -> c_voidp cd = false ->
   addressof_index cd i = Ok q -> add_or_sub cd i 1 = Ok q.
 Proof. exact addressof_is_add. Qed.
 Print Assumptions C16_addressof_is_add.
 
+Theorem C16_addressof_overflow : forall cd i, 0 < c_isz cd < 2 ^ 63 -> ssize_ok i = true ->
+  ~ (- 2 ^ 63 <= i * c_isz cd < 2 ^ 63) -> addressof_index cd i = Err OverflowError.
+Proof. exact addressof_overflow. Qed.
+Print Assumptions C16_addressof_overflow.
+
 (* History: starting from an owned array of n items of S bytes at [base, base + n*S), after ANY
-   sequence of index reads/writes, slices and slice assignments (from iterables, bytes or other
-   views, also overlapping) on ANY of the views created so far: no accepted access touched a byte
-   outside the array (escape flag still false), the memory has the same size, and every view is an
-   array view lying inside the base array. *)
+   sequence of operations — index reads/writes, slices, slice assignments (from iterables, bytes or
+   other views, also overlapping), p+i, i+p, p-i, p-q and addressof on ANY of the cdata created so far —
+   in which memory is reached only through array views (the decidable guard safe_runb, evaluated along
+   the run; a raw pointer produced by arithmetic can be dereferenced anywhere, as in C, and is outside
+   the bounds claim): no accepted access touched a byte outside the array (escape flag still false),
+   the memory has the same size, and every array view lies inside the base array. *)
 Theorem C16_views_stay_inside : forall base S, 0 <= S -> forall mem n ops st' outs,
   0 <= n -> Z.of_nat (length mem) = n * S -> 0 <= base -> base + n * S < 2 ^ 64 ->
   n * S < 2 ^ 63 * Z.max S 1 ->
-  Forall (slice_op S) ops -> run base (initial base S mem n) ops = (st', outs) ->
+  safe_runb base S (initial base S mem n) ops = true ->
+  run base (initial base S mem n) ops = (st', outs) ->
   s_escaped st' = false /\ length (s_mem st') = length mem /\
-  Forall (view_ok base S (n * S)) (s_views st').
+  Forall (view_inv base S (n * S)) (s_views st').
 Proof. exact views_stay_inside. Qed.
 Print Assumptions C16_views_stay_inside.
 
@@ -160,15 +176,17 @@ Proof. exact mwrite_read_back. Qed.
 Print Assumptions C16_write_read_back.
 
 (* non-vacuity: int32 array of 4 at 4096: x[1:3] is a 2-item view at 4100; writing view[1] changes
-   bytes 8..11 only; x[4] and x[3:2] are IndexError; the hypotheses of the history theorem hold *)
+   bytes 8..11 only; x[4] and x[3:2] are IndexError; pointer arithmetic and addressof in between;
+   the guard of the history theorem holds for this run *)
 Example C16_example :
   let mem := [1;0;0;0; 2;0;0;0; 3;0;0;0; 4;0;0;0] in
   let ops := [OSlice 0 (BInt 1) (BInt 3) false; OIndexWrite 1 1 (Ok [9;9;9;9]); OIndexRead 0 2;
-              OIndexRead 0 4; OSlice 0 (BInt 3) (BInt 2) false;
+              OIndexRead 0 4; OSlice 0 (BInt 3) (BInt 2) false; OAdd 1 1; OAddressof 0 3; OPtrSub 3 2;
               OAssSlice 0 (BInt 0) (BInt 2) false false (SArray 1); OIndexRead 1 2] in
   run 4096 (initial 4096 4 mem 4) ops =
-  (mkst [2;0;0;0; 9;9;9;9; 9;9;9;9; 4;0;0;0] [arr 4 4096 4; arr 2 4100 4] false,
+  (mkst [2;0;0;0; 9;9;9;9; 9;9;9;9; 4;0;0;0]
+        [arr 4 4096 4; arr 2 4100 4; ptr 4104 4; ptr 4108 4] false,
    [RView 1 (arr 2 4100 4); RDone; RBytes 4104 (Some [9;9;9;9]); RErr IndexError; RErr IndexError;
-    RDone; RErr IndexError])
-  /\ Forall (slice_op 4) ops.
-Proof. split; [vm_compute; reflexivity|repeat constructor]. Qed.
+    RView 2 (ptr 4104 4); RView 3 (ptr 4108 4); RInt 1; RDone; RErr IndexError])
+  /\ safe_runb 4096 4 (initial 4096 4 mem 4) ops = true.
+Proof. split; vm_compute; reflexivity. Qed.
